@@ -355,6 +355,39 @@ fn grids(args: &Args, rep: &mut Report) {
                 }
             }
         }
+        // dated starts at the edges of the supported range x offsets crossing them x every form of end
+        // (the start's year is part of the DATE, not a year selector): every day of the years around
+        for y in [1900i32, 1901, 2024, 9998, 9999] {
+            let mut days: Vec<NaiveDate> = Vec::new();
+            let mut d = dates::ymd((y - 1).max(1900), 1, 1);
+            while d <= dates::ymd((y + 2).min(9999), 12, 31) {
+                days.push(d);
+                d = d.succ_opt().unwrap();
+            }
+            for a in ["Jan 01", "Jan 03", "Feb 29", "Mar 01", "Dec 29", "Dec 31"] {
+                for oa in [0i64, 1, -1, 2, -2, 5, -5, 366, -366] {
+                    let start = format!("{y} {a}{}", fmt_off(oa));
+                    let mut ends: Vec<String> = vec![String::new(), "+".to_string()];
+                    for b in ["Jan 01", "Jan 10", "Feb 29", "Dec 31"] {
+                        for ob in [0i64, -2, 2, -5, 5] {
+                            ends.push(format!("-{b}{}", fmt_off(ob)));
+                        }
+                        for y2 in [y, y + 1] {
+                            if y2 <= 9999 {
+                                ends.push(format!("-{y2} {b}"));
+                            }
+                        }
+                    }
+                    for e in ends {
+                        pair += 1;
+                        if !thorough && pair % 2 != args.seed % 2 {
+                            continue;
+                        }
+                        one(format!("{start}{e} 10:00-12:00"), "cross_dated_start", days.clone(), rep);
+                    }
+                }
+            }
+        }
         for a in 1..=53u32 {
             for b in 1..=53u32 {
                 for step in [2u32, 3, 4, 5, 6, 13, 26, 53] {
